@@ -28,6 +28,8 @@ structure Side where
   msync : Bool := true
   pendingSize : Option Int := none   -- bound to check at the next `stat`
   histMono : Bool := true           -- every time published so far is ≥ 0 and ≥ the one before
+  fsVers : Option (List (Int × Ver)) := none  -- (base, log version) of every segment, from the
+                                               -- implementation's last directory listing, if still current
   lastTime : Int := 0
 deriving Inhabited
 
@@ -61,6 +63,13 @@ quantify over such histories; the index timestamp carry makes the history matter
 def monoStep (last : Int) : List Int → Bool × Int
   | [] => (true, last)
   | t :: ts => if last ≤ t then monoStep t ts else (false, t)
+
+/-- Storage size of messages given the directory listing: a message is stored in the
+version of the last segment whose base is not above its offset. -/
+def exactSize (p : Params) (vers : List (Int × Ver)) (del : List Msg) : Int :=
+  (del.map (fun m =>
+    let v := ((vers.filter (fun bv => decide (bv.1 ≤ m.off))).getLast?.map (·.2)).getD Ver.v2
+    recSize v m + p.size)).sum
 
 def removeReported (s : Spec) (del : List Msg) : Spec :=
   { s with live := s.live.filter (fun m => !(del.map (·.off)).contains m.off) }
@@ -190,7 +199,13 @@ def handle (sd : Side) (op : List String) (impl : List String) : Handled :=
         { side := { sd with mlog := some l1, pendingSize := none }, model := txt, viols := v }
     else if o = "fsobs" then
       let ds := match sd.mlog with | some l => l.disk | none => sd.disk
-      { side := sd, model := s!"ok {fmtDisk sd.params ds}" }
+      -- remember the implementation's own listing: which file version holds which offsets
+      let vers : Option (List (Int × Ver)) := match impl with
+        | "ok" :: _n :: segs => parseAll (fun (t : String) => match t.splitOn ":" with
+            | b :: v :: _ => (b.toInt?).map (fun bb => (bb, if v = "1" then Ver.v1 else Ver.v2))
+            | _ => none) (segs.filter (fun t => !t.startsWith "extra:"))
+        | _ => none
+      { side := { sd with fsVers := vers }, model := s!"ok {fmtDisk sd.params ds}" }
     else { side := sd, model := "bad-op" }
   | ["cons", o, m] =>
     match o.toInt?, m.toNat? with
@@ -279,7 +294,10 @@ def handle (sd : Side) (op : List String) (impl : List String) : Handled :=
           let v := match implR with
             | some r =>
               viol (decideB (Spec.DeleteOK sd.ro sd.params sd.spec offs r spec')) "DeleteOK" ++
-              (match r with | .ok (del, _) => viol (reportedAreLive sd.spec del) "DeleteOK.content" | _ => [])
+              (match r with | .ok (del, _) => viol (reportedAreLive sd.spec del) "DeleteOK.content" | _ => []) ++
+              (match r, sd.fsVers with
+               | .ok (del, sz), some vers => viol (sz == exactSize sd.params vers del) "DeleteOK.size"
+               | _, _ => [])
             | none => ["DeleteOK.unparsed"]
           withLog { sd with spec := spec' } fun l =>
             let (l1, r) := l.delete offs
@@ -416,6 +434,10 @@ def processLine (st : DState) (raw : String) : DState :=
     else st
   else
     match line.splitOn " => " with
+    | [lhs, "err hang"] =>
+      -- the call never returned (a loop that does not terminate): a violation of its own
+      { st with viols := st.viols + 1, out := st.out.push s!"VIOL {st.line} Terminates {lhs} impl=err hang",
+                main := { st.main with msync := false }, bak := { st.bak with msync := false } }
     | [lhs, rhs] =>
       let opToks := (lhs.splitOn " ").filter (· ≠ "")
       let implToks := (rhs.splitOn " ").filter (· ≠ "")
@@ -443,8 +465,13 @@ def processLine (st : DState) (raw : String) : DState :=
           let counts := bump st.counts (opName ++ (match restOps with
             | k :: _ => if opName = "find" ∨ opName = "trim" ∨ opName = "compact" then "." ++ k else ""
             | [] => "") ++ ":" ++ cls)
+          -- the remembered directory listing is current only until the next call that may change files
+          let keepFs := opName = "fsobs" || opName = "next" || opName = "sync"
+          let h := if keepFs then h else
+            (if opName = "del" then h else h)
           let mdiff := sd.msync && h.model ≠ implTxt
-          let side' := if mdiff then { h.side with msync := false } else { h.side with msync := sd.msync }
+          let side0 := if keepFs then h.side else { h.side with fsVers := none }
+          let side' := if mdiff then { side0 with msync := false } else { side0 with msync := sd.msync }
           let out := if mdiff then st.out.push s!"DIFF {st.line} {lhs} impl={implTxt} model={h.model}" else st.out
           let out := h.viols.foldl (fun o v => o.push s!"VIOL {st.line} {v} {lhs} impl={implTxt}") out
           let st := { st with counts := counts, out := out,
